@@ -94,11 +94,17 @@ def run_pair(op, a, b):
     return r if isinstance(r, tuple) else (r, False)
 
 
-def run_boosted(op, a, b, boost_code):
-    """boosted clauses: first operand boosted by 0.5 / 2 / 3"""
+def run_boosted(op, a, b, boost_code, allow_known=True):
+    """boosted clauses: first operand boosted by 0.5 / 2 / 3.
+    Known finding KF-C05-1: a boost > 1 on a clause whose matcher is a WrappingMatcher (multi-term
+    expansions, phrases, compounds) is passed *unscaled* to the child's replace() (pinned by
+    tests/test_quality.py::test_replacements), which can prune top-N hits; such inputs are excluded
+    here and witnessed by c05_kf_wrapping_boost."""
     la, lb = LEAVES[a], LEAVES[b]
     o = C.OPS[op]
     boost = [0.5, 2.0, 3.0][boost_code]
+    if allow_known and boost > 1 and a not in (0, 1, 2, 3, 4, 5):
+        return None, False
     qa = la[1]()
     try:
         qa = qa.with_boost(boost)
@@ -154,3 +160,78 @@ def c05_boosted(op: int, a: int, b: int, bc: int) -> Optional[str]:
         r, engaged = run_boosted(SCORED_OPS[pick(op, 8)], BL[pick(a, 6)], BL[pick(b, 6)], pick(bc, 3))
     tick(engaged)
     return r
+
+
+@h(bounds="witness of known finding KF-C05-1 (concrete): Or(Prefix('t','al')^3, Term('t','alfa')), limit=2", funcs=FUNCS, examples=[],
+   timeout=dict(quick=120, thorough=120))
+def c05_kf_wrapping_boost(k: int) -> Optional[str]:
+    """
+    pre: k == 0
+    post: _ is None
+    """
+    with notrace():
+        r, _ = run_boosted(1, 6, 0, 2, allow_known=False)
+    tick(True)
+    return None if r is None else "KF-C05-1 witness: " + r
+
+
+# ------------------------------------------------------------------ depth 2 and three-clause disjunctions
+NB = [0, 1, 2, 3, 5, 12]     # leaves: 4 terms, keyword, numeric range
+
+
+def run_nested(op1, shape, a, b, c, d, boost_code):
+    """op1(X, leaf d) / op1(leaf d, X) where X = Or3(a, b, c^boost) (shape 0/1: default or array matcher),
+    And(a, Or(b, c^boost)) (shape 2) or Or(a, And(b, c^boost)) (shape 3); shape//4 selects which side X is on."""
+    L = [LEAVES[NB[i]] for i in (a, b, c, d)]
+    boost = [1.0, 0.5][boost_code]
+    qc = L[2][1]()
+    if boost != 1.0:
+        qc = qc.with_boost(boost)
+    sh = shape % 4
+    if sh in (0, 1):
+        X = query.Or([L[0][1](), L[1][1](), qc])
+        if sh == 1:
+            X.matcher_type = query.Or.ARRAY_MATCHER
+        xd = "Or%s(%s, %s, %s^%s)" % ("/array" if sh == 1 else "", L[0][0], L[1][0], L[2][0], boost)
+    elif sh == 2:
+        X = query.And([L[0][1](), query.Or([L[1][1](), qc])])
+        xd = "And(%s, Or(%s, %s^%s))" % (L[0][0], L[1][0], L[2][0], boost)
+    else:
+        X = query.Or([L[0][1](), query.And([L[1][1](), qc])])
+        xd = "Or(%s, And(%s, %s^%s))" % (L[0][0], L[1][0], L[2][0], boost)
+    o = C.OPS[op1]
+    if shape >= 4:
+        q = o[1](L[3][1](), X)
+        desc = "%s(%s, %s)" % (o[0], L[3][0], xd)
+    else:
+        q = o[1](X, L[3][1]())
+        desc = "%s(%s, %s)" % (o[0], xd, L[3][0])
+    r = check_topn(q, desc, ks=(1, 2))
+    return r if isinstance(r, tuple) else (r, False)
+
+
+def _mk_nested(op1):
+    name = "c05_nest_" + "".join(ch if ch.isalnum() else "_" for ch in C.OPS[op1][0]).strip("_").lower()
+
+    @h(bounds="%s(X, d) and %s(d, X) with X in {Or(a,b,c^w) default and array matcher, And(a,Or(b,c^w)), Or(a,And(b,c^w))}, a,b,c,d over 6 leaves "
+              "(quick: 4), w in {1, 0.5}; k in 1..2; layouts/weightings/variants as above" % (C.OPS[op1][0], C.OPS[op1][0]),
+       funcs=FUNCS + ["whoosh.matching.combo.ArrayUnionMatcher", "whoosh.matching.wrappers.FilterMatcher"],
+       examples=[dict(shape=0, a=0, b=1, c=2, d=3, bc=1), dict(shape=5, a=3, b=2, c=1, d=0, bc=0)], outside=OUT,
+       timeout=dict(quick=900, thorough=3000))
+    def harness(shape: int, a: int, b: int, c: int, d: int, bc: int) -> Optional[str]:
+        """
+        pre: 0 <= shape < 8 and 0 <= a < NNB and 0 <= b < NNB and 0 <= c < NNB and 0 <= d < NNB and 0 <= bc < 2
+        post: _ is None
+        """
+        with notrace():
+            r, engaged = run_nested(op1, pick(shape, 8), pick(a, NNB), pick(b, NNB), pick(c, NNB), pick(d, NNB), pick(bc, 2))
+        tick(engaged)
+        return r
+    harness.__name__ = harness.__qualname__ = name
+    return name, harness
+
+
+NNB = 4 if not THOROUGH else 6
+for _op in (0, 1, 3, 4, 5, 6):
+    _n, _f = _mk_nested(_op)
+    globals()[_n] = _f
